@@ -275,6 +275,8 @@ class Folder:
         if isinstance(node, ast.Name):
             if node.id in self.names:
                 v = self.names[node.id]
+                if isinstance(v, (ast.FunctionDef, ast.Lambda)):
+                    return v  # a local function handed around as a value
                 return self.fold(v) if isinstance(v, ast.AST) else v
             raise Unfoldable(f"name {node.id}")
         if isinstance(node, ast.Attribute):
@@ -421,8 +423,10 @@ class Folder:
                 def last(v):
                     if isinstance(v, list) and v and isinstance(v[0], list):
                         return [last(r) for r in v]
-                    if isinstance(v, list) and isinstance(i, int) and -len(v) <= i < len(v):
+                    if isinstance(v, list) and isinstance(i, int) and not isinstance(i, bool) and -len(v) <= i < len(v):
                         return v[i]
+                    if isinstance(v, list) and isinstance(i, list) and not isinstance(i, BoolList) and all(isinstance(t_, int) and not isinstance(t_, bool) and -len(v) <= t_ < len(v) for t_ in i):
+                        return [v[t_] for t_ in i]  # gather along the last axis
                     raise Unfoldable("index")
 
                 return last(base)
@@ -468,6 +472,23 @@ class Folder:
                     return target(*[self.fold(a) for a in node.args])
                 except (TypeError, ValueError, IndexError) as exc:
                     raise Unfoldable(str(exc))
+        if isinstance(node, ast.Call) and isinstance(node.func, ast.Name) and isinstance(self.names.get(node.func.id), (ast.FunctionDef, ast.Lambda)) and not node.keywords:
+            fd_ = self.names[node.func.id]
+            argv = [self.fold(a) for a in node.args]
+            params_ = [a.arg for a in fd_.args.args]
+            if len(argv) != len(params_):
+                raise Unfoldable("local function arity")
+            if isinstance(fd_, ast.Lambda):
+                sub = Folder(dict(self.names, **dict(zip(params_, argv))), self.attrs)
+                sub.funcs, sub.materialise, sub.ctors = self.funcs, self.materialise, self.ctors
+                return sub.fold(fd_.body)
+            from .frag import FragReturn, run_fragment
+
+            try:
+                run_fragment(fd_.body, dict(self.names, **dict(zip(params_, argv))), self.attrs, funcs=self.funcs, materialise=self.materialise, ctors=self.ctors)
+            except FragReturn as r_:
+                return r_.value
+            raise Unfoldable("local function returns nothing")
         if isinstance(node, ast.Call) and isinstance(node.func, ast.Attribute) and self.funcs and attr_chain(node.func) in self.funcs:
             # a method of the analysed class the caller allows to be followed (`self._helper(...)`)
             fake = ast.Call(func=ast.Name(id=attr_chain(node.func), ctx=ast.Load()), args=node.args, keywords=node.keywords)
@@ -616,10 +637,12 @@ class Folder:
             if nm == "isinstance" and len(node.args) == 2:
                 v = self.fold(node.args[0])
                 tn = unparse(node.args[1])
-                table = {"str": str, "int": int, "float": float, "bool": bool, "list": list, "tuple": list, "(list, tuple)": list, "(tuple, list)": list, "torch.Tensor": list}
+                table = {"str": str, "int": int, "float": float, "bool": bool, "list": PySeq, "tuple": PySeq, "(list, tuple)": PySeq, "(tuple, list)": PySeq, "torch.Tensor": list, "dict": dict, "set": set}
                 if tn in table:
                     if table[tn] is int:
                         return isinstance(v, int) and not isinstance(v, bool)
+                    if tn == "torch.Tensor":
+                        return isinstance(v, list) and not isinstance(v, PySeq)
                     return isinstance(v, table[tn])
                 raise Unfoldable(f"isinstance against {tn}")
             if short in ("flip", "fliplr", "flipud") and node.args:
